@@ -167,6 +167,8 @@ def jobs(tier, seed):
     for n in ROBOTS_REDIRECTS:
         for code in (301, 302, 303, 307, 308):
             js.append(dict(kind='e2e', name='robots-redirect:%s:%d' % (n, code)))
+    for o in ('exhost', 'exdomain', 'regex', 'https'):
+        js.append(dict(kind='e2e', name='startout:' + o))
     js.append(dict(kind='e2e', name='sitemap'))
     js.append(dict(kind='e2e', name='ftplink'))
     js.append(dict(kind='e2e', name='ftplink+follow'))
@@ -502,6 +504,35 @@ def run_robots_redirect_e2e(name, code):
     return None, reqs
 
 
+def run_start_out_e2e(opt):
+    """A start URL that is itself out of scope (links are judged when they are scraped; for a
+    start URL the gate before the fetch is the only one): robots checking on, the excluded
+    origin must not receive any request - not even for its robots.txt."""
+    from vt.appharn import AppRun
+    rb = {'body': 'User-agent: *\nDisallow:\n', 'ctype': 'text/plain'}
+    site = {'hosts': {
+        'a.test': {'/': {'links': ['/a']}, '/a': {'links': []}, '/robots.txt': rb},
+        'd.test': {'/out.html': {'links': ['/more']}, '/more': {'links': []},
+                   '/robots.txt': rb}}}
+    opts = {'exhost': ['--exclude-hostnames', 'd.test'],
+            'exdomain': ['--exclude-domains', 'd.test'],
+            'regex': ['--reject-regex', 'out'],
+            'https': ['--hostnames', 'a.test']}[opt]
+    argv = ['http://a.test/', 'http://d.test/out.html', '-r', '--delete-after',
+            '--waitretry', '0'] + opts
+    out = AppRun(site, argv, Chooser(), early=False).run()
+    reqs = [(q['headers'].get('host'), q['target']) for q in out['requests']]
+    if out['result'] != 'ok' or out['exc']:
+        return 'crawl failed: %s %s' % (out['result'], out['exc']), reqs
+    for h, t in reqs:
+        if h == 'd.test':
+            return ('request to %s%s: the only URL of that origin on offer is out of scope '
+                    '(options %s)' % (h, t, ' '.join(opts))), reqs
+    if ('a.test', '/a') not in reqs:
+        return 'page a.test/a was not fetched', reqs
+    return None, reqs
+
+
 def crawl_target(loc):
     if loc.startswith('http://'):
         h, _, p = loc[7:].partition('/')
@@ -512,6 +543,8 @@ def crawl_target(loc):
 def run_e2e(name, chooser):
     from vt.appharn import AppRun
     from vt.checks import c01
+    if name.startswith('startout:'):
+        return run_start_out_e2e(name.split(':')[1])
     if name.startswith('robots-redirect:'):
         _, n, code = name.split(':')
         return run_robots_redirect_e2e(n, int(code))
